@@ -2,13 +2,32 @@
 
 Specification: specs/ScanGeom.tla (three machines, see its header)
   WALK   behaviours of conversion functions  -> mode B: every emitted walk is executed with the real
-         functions of ImageD11.sinograms.geometry, compared after every step with the exact position
+         functions of ImageD11.sinograms.geometry, compared after every step with the exact position.
+         Array arguments: the walks that differ only in the angle form a group, element i of every array
+         (position, omega / sin / cos, dty) belongs to walk i (distinct elements); scalar arguments: every
+         third walk.  omega is passed as the specification's angle -1 / 0 / +1 whole turns.  Steps 1/10 and
+         3/7 (not binary fractions: no float exact; an exact half-integer may round to either neighbour).
   RECON  case oracle for the filtered back-projection -> mode A: predicted pixel, shift, pad, grid,
-         sinogram rows, get_voxel_idx windows; the real FBP is run as its consumers run it
-  PART   todo[j::workers] -> the jobs handed to the thread pool by roi_iradon.iradon are recorded
-         (harness-side wrapper, no source hook) and compared with the specification's jobs
-Observed on the real FBP (specification supplies scenario + prediction): 1.5 px bound, linearity,
-worker-count independence 1..16, ROI-mask independence.
+         sinogram rows, get_voxel_idx windows, the exact (sx, sy, y0) a fit of the in-beam dty has to return
+         (fit_sine_wave / sx_sy_y0_from_dty_omega); the real FBP is run as its consumers run it.  With ystep
+         1/10 the integers the code takes with ceil / floor of an exact integer may fall on the far side
+         (pad + 1, grid + 1 each side); the prediction is then made for the actual shape (step + shape // 2).
+  PART   [todo[j::stride] for j < pool]: the partition law for EVERY (stride, pool size) pair; the code's
+         law is stride = pool = workers (None / < 1: cores_available()).  The pool size and the jobs handed
+         to the thread pool by roi_iradon.iradon are recorded (harness-side wrapper, no source hook) in this
+         process for every (n, workers) and in CHILD PROCESSES (harness/c19_child.py) whose cpu affinity
+         mask is restricted to 1, 2, 3 cpus, with and without the variables of a batch allocation
+         (OMP_NUM_THREADS, SLURM_*, NUMBER_OF_PROCESSORS), for workers 1..16 and None: the recorded jobs must
+         be a record of the specification that is a partition, and every reconstruction (small sinograms,
+         full-size point grains through run_iradon and GrainSinogram.recon) must equal the one-worker one.
+Observed on the real FBP (specification supplies scenario + prediction): 1.5 px bound (also for the scan
+described with omega + 360 k, in decreasing 2 degree steps, with an offset start), linearity, worker-count
+independence 1..16 and None, ROI-mask independence (incl. the empty mask), for float64 and float32 sinograms
+(REL32), and - harness-side families, the model does not mention interpolant or filter - the relational
+clauses for interpolation linear / nearest / cubic x filter ramp / shepp-logan / cosine / hamming / hann /
+None, projection_shifts None, output_size None; GrainSinogram.recon(projections=subset).
+Recorded, not judged (outside the statement): integer sinograms (raise), workers = 0 / -1,
+fit_sample_position_from_recon, peak distance with nearest / cubic interpolation.
 """
 from __future__ import print_function
 import os, sys, json, math, random, time, types, itertools
@@ -20,6 +39,10 @@ NOI = -99999
 FBP_PX = 1.5          # property statement: within 1.5 pixels
 ROI_FINDING = "C19-roi-mask-shift-padding"
 REL = 1e-10           # FBP comparisons where only the floating point summation order may differ
+REL32 = 1e-5          # the same for float32 sinograms (the reconstruction is accumulated in float32)
+FIT_REL = 1e-6        # fit_sine_wave: an iterative least-squares fit of exact data (scipy tolerances 1e-8)
+INTERPS = ["linear", "nearest", "cubic"]
+FILTERS = ["ramp", "shepp-logan", "cosine", "hamming", "hann", None]
 
 WALK_ACTIONS = ["sample_to_lab_sincos", "sample_to_lab", "lab_to_sample_sincos", "lab_to_sample",
                 "sample_to_step", "step_to_sample", "step_to_recon", "recon_to_step", "sample_to_recon",
@@ -57,6 +80,7 @@ def _setup():
     from ImageD11 import cImageD11
     ns.geometry, ns.roi_iradon, ns.sinogram, ns.dataset, ns.pbp = geometry, roi_iradon, sinogram, dataset, pbp
     ns.grain, ns.cImageD11 = ImageD11.grain, cImageD11
+    ns.shadow = shadow
     M = ns
     return ns
 
@@ -103,43 +127,78 @@ def _tie_ok(got, u):
     return got in (math.floor(u), math.ceil(u))
 
 
-def replay_walk(rec, vector=False):
-    """Execute one TLC behaviour with the real functions.  Returns a list of failure strings."""
+def dyadic(x):
+    """x = [num, den] reduced: the float of x is exact (for the small numerators of the specification)"""
+    d = int(x[1])
+    return d & (d - 1) == 0
+
+
+def replay_walk(recs, vector=False, turns=None):
+    """Execute TLC behaviours with the real functions.  Returns a list of failure strings.
+    recs: one record (scalar arguments), or - vector=True - a list of records that differ only in the angle
+    (same lengths, start frame and action names): element i of every array argument (position, omega / sin / cos,
+    dty) belongs to recs[i], so the elements of the vectors are distinct.  turns[i] whole turns are added to the
+    omega of element i where it is passed in degrees (the specification's angles are classes mod 360)."""
     g = M.geometry
-    c = rec["cfg"]
-    a = c["om"]
-    sn, cs = a[1] / float(a[2]), a[0] / float(a[2])
-    om = math.degrees(math.atan2(a[1], a[0]))
+    if isinstance(recs, dict):
+        recs = [recs, recs] if vector else [recs]
+    if not vector and len(recs) != 1:
+        raise common.MachineryError("scalar walk with %d records" % len(recs))
+    K = len(recs)
+    turns = list(turns) if turns is not None else [0] * K
+    c = recs[0]["cfg"]
+    names = [st["a"] for st in recs[0]["op"]]
+    for r in recs[1:]:
+        c2 = r["cfg"]
+        if [st["a"] for st in r["op"]] != names or any(c2[k] != c[k] for k in ("y0", "ystep", "ymin", "shape", "f0", "dty0", "P0")):
+            raise common.MachineryError("walk group mixes configurations")
+
+    def A(vals):
+        return np.array(vals, dtype=float) if vector else vals[0]
+
+    angs = [r["cfg"]["om"] for r in recs]
+    sn, cs = A([a[1] / float(a[2]) for a in angs]), A([a[0] / float(a[2]) for a in angs])
+    om = A([math.degrees(math.atan2(a[1], a[0])) + 360.0 * t for a, t in zip(angs, turns)])
     y0, ystep, ymin = fl(c["y0"]), fl(c["ystep"]), fl(c["ymin"])
     qy0, qystep, qymin = q(c["y0"]), q(c["ystep"]), q(c["ymin"])
     shape = tuple(c["shape"])
     frame = c["f0"]
-    ex, ey = q(c["start"][0]), q(c["start"][1])
-    x, y = float(ex), float(ey)
-    if vector:
-        x, y = np.array([x, x]), np.array([y, y])
-    dty = fl(c["dty0"])
+    x = A([float(q(r["cfg"]["start"][0])) for r in recs])
+    y = A([float(q(r["cfg"]["start"][1])) for r in recs])
+    dty = A([fl(c["dty0"])] * K)
     dtyi = None
-    exact = (a[2] == 1)            # all floats so far are exactly the specification's rationals
-    dc, tie = c["dc"], c["tie"]
+    # all floats so far are exactly the specification's rationals (lengths are multiples of ystep / 2)
+    exact = [(a[2] == 1) and dyadic(c["ystep"]) for a in angs]
+    dcs, ties = [r["cfg"]["dc"] for r in recs], [r["cfg"]["tie"] for r in recs]
     fails = []
     pscale = max(abs(y0), abs(ymin), 1.0)
+
+    def el(v):
+        """the K elements of a result"""
+        v = np.asarray(v)
+        if v.ndim == 0 or v.shape == (1,):
+            return [v.reshape(-1)[0]] * K
+        if v.shape != (K,):
+            raise RealCodeError("result of shape %r for arguments of %d elements" % (v.shape, K))
+        return list(v)
 
     def sc(*v):
         return max([pscale] + [float(np.max(np.abs(np.asarray(t, dtype=float)))) for t in v])
 
-    def cmp_pos(tag, gx, gy, px, py, extra=()):
-        s = sc(px, py, dty, *extra)
-        for nm, gv, pv in (("x", gx, px), ("y", gy, py)):
-            for v in np.atleast_1d(gv):
-                if not close(v, pv, s):
-                    fails.append("%s: %s = %r, specification %s (= %.17g)" % (tag, nm, float(v), pv, float(pv)))
+    def cmp_pos(tag, gx, gy, pxs, pys, extra=()):
+        s = sc([float(t) for t in pxs], [float(t) for t in pys], dty, *extra)
+        for nm, gv, pv in (("x", gx, pxs), ("y", gy, pys)):
+            for i, v in enumerate(el(gv)):
+                if not close(v, pv[i], s):
+                    fails.append("%s: %s%s = %r, specification %s (= %.17g)" %
+                                 (tag, nm, "[%d]" % i if vector else "", float(v), pv[i], float(pv[i])))
                     return
 
     def check_masks(tag, frame, x, y, u):
         """dtyimask_* variants: exactly the bin dtyi_calc is selected"""
         if vector:
             return
+        dc, tie = dcs[0], ties[0]
         arr = np.arange(dc - 3, dc + 4)
         omv, snv, csv = np.full(len(arr), om), np.full(len(arr), sn), np.full(len(arr), cs)
         if frame == "sample":
@@ -160,8 +219,8 @@ def replay_walk(rec, vector=False):
         for nm, fn, is_sc in routes:
             m = np.asarray(call(fn))
             sel = [int(v) for v in arr[m]]
-            if tie and not (exact and is_sc):
-                ok = len(sel) == 1 and _tie_ok(sel[0], u)
+            if tie and not (exact[0] and is_sc):
+                ok = len(sel) == 1 and _tie_ok(sel[0], u[0])
             else:
                 ok = sel == [dc]
             if not ok:
@@ -169,23 +228,21 @@ def replay_walk(rec, vector=False):
 
     # u = (dty_in_beam - ymin)/ystep of the physical point, exact
     P0 = (q(c["P0"][0]), q(c["P0"][1]))
-    u_exact = (qy0 - P0[0] * F(a[1], a[2]) - P0[1] * F(a[0], a[2]) - qymin) / qystep
+    u_exact = [(qy0 - P0[0] * F(a[1], a[2]) - P0[1] * F(a[0], a[2]) - qymin) / qystep for a in angs]
     seen_frames = set()
     diverged = False
     if frame != "lab":
         check_masks("start", frame, x, y, u_exact)
         seen_frames.add(frame)
 
-    for k, st in enumerate(rec["op"]):
-        name = st["a"]
+    for k, name in enumerate(names):
+        sts = [r["op"][k] for r in recs]
+        st = sts[0]
         tag = "step %d %s" % (k + 1, name)
-        px, py = q(st["p"][0]), q(st["p"][1])
-        ed = q(st["d"])
+        pxs, pys = [q(t["p"][0]) for t in sts], [q(t["p"][1]) for t in sts]
+        eds = [q(t["d"]) for t in sts]
         prev = (np.max(np.abs(x)), np.max(np.abs(y)))
-        if name in ROTATING_DEG:
-            inexact_after = True
-        else:
-            inexact_after = False
+        inexact_after = name in ROTATING_DEG
         # ---- frame conversions
         if name == "sample_to_lab_sincos":
             x, y = call(g.sample_to_lab_sincos, x, y, y0, dty, sn, cs)
@@ -222,8 +279,10 @@ def replay_walk(rec, vector=False):
             dty = call(g.dty_values_grain_in_beam, x, y, y0, om)
             for alias in (g.x_y_y0_omega_to_dty, g.dtycalc):
                 d2 = call(alias, om, x, y, y0)
-                if not close(np.atleast_1d(d2)[0], ed, sc(ed, *prev)):
-                    fails.append("%s: alias %s = %r, specification %s" % (tag, alias.__name__, d2, ed))
+                for i, v in enumerate(el(d2)):
+                    if not close(v, eds[i], sc([float(e) for e in eds], *prev)):
+                        fails.append("%s: alias %s = %r, specification %s" % (tag, alias.__name__, d2, eds[i]))
+                        break
         elif name == "step_omega_to_dty":
             dty = call(g.step_omega_to_dty, x, y, om, y0, ystep)
         elif name == "recon_omega_to_dty":
@@ -241,29 +300,33 @@ def replay_walk(rec, vector=False):
         else:
             raise common.MachineryError("unknown action %r in walk" % name)
         if inexact_after:
-            exact = False
+            exact = [False] * K
         frame = st["f"]
         # ---- compare with the specification's state
-        cmp_pos(tag, x, y, px, py, extra=prev)
-        dv = np.atleast_1d(dty)
-        if any(not close(v, ed, sc(ed, *prev)) for v in dv):
-            fails.append("%s: dty = %r, specification %s (= %.17g)" % (tag, float(dv[0]), ed, float(ed)))
+        cmp_pos(tag, x, y, pxs, pys, extra=prev)
+        sd = sc([float(e) for e in eds], *prev)
+        for i, v in enumerate(el(dty)):
+            if not close(v, eds[i], sd):
+                fails.append("%s: dty%s = %r, specification %s (= %.17g)" % (tag, "[%d]" % i if vector else "", float(v),
+                                                                             eds[i], float(eds[i])))
+                break
         if st["ph"] >= 2:
-            iv = [int(v) for v in np.atleast_1d(dtyi)]
-            if st["i"] != dc:
-                raise common.MachineryError("specification: dtyi %r differs from dtyi_calc %r" % (st["i"], dc))
-            for v in iv:
-                if tie and not exact:
-                    ok = _tie_ok(v, u_exact)
-                    if ok and v != st["i"]:
+            iv = [int(v) for v in el(dtyi)]
+            for i, v in enumerate(iv):
+                if sts[i]["i"] != dcs[i]:
+                    raise common.MachineryError("specification: dtyi %r differs from dtyi_calc %r" % (sts[i]["i"], dcs[i]))
+                if ties[i] and not exact[i]:
+                    ok = _tie_ok(v, u_exact[i])
+                    if ok and v != sts[i]["i"]:
                         # (dty - ymin)/ystep is exactly k + 1/2 and the floats are not exact: the code may
                         # legitimately take the other neighbour; the rest of the behaviour then differs from
                         # the specification's by one bin, so the comparison stops here
                         diverged = True
                 else:
-                    ok = (v == st["i"])
+                    ok = (v == sts[i]["i"])
                 if not ok:
-                    fails.append("%s: dtyi = %r, specification %d (tie=%s exact=%s)" % (tag, v, st["i"], tie, exact))
+                    fails.append("%s: dtyi%s = %r, specification %d (tie=%s exact=%s)" %
+                                 (tag, "[%d]" % i if vector else "", v, sts[i]["i"], ties[i], exact[i]))
                     break
             if not np.issubdtype(np.asarray(dtyi).dtype, np.integer):
                 fails.append("%s: dtyi has dtype %s, not an integer type" % (tag, np.asarray(dtyi).dtype))
@@ -273,7 +336,7 @@ def replay_walk(rec, vector=False):
             check_masks(tag, frame, x, y, u_exact)
         if st["ph"] in (1, 2) and frame == "sample":
             ly = call(g.sample_to_lab_sincos, x, y, y0, dty, sn, cs)[1]
-            if any(not close(v, 0.0, sc(ed, *prev)) for v in np.atleast_1d(ly)):
+            if any(not close(v, 0.0, sd) for v in np.atleast_1d(ly)):
                 fails.append("%s: lab y of the point at dty_values_grain_in_beam is %r, not 0" % (tag, ly))
         if st["ph"] == 3:
             back = call(g.dty_to_dtyi, np.asarray(dty), ystep, ymin)
@@ -299,122 +362,306 @@ def walk_nontrivial(rec):
     return len(set(fr)) < len(fr)       # some frame is visited again (a cycle or a stage move)
 
 
+def group_key(rec):
+    """walks that differ only in the angle"""
+    c = rec["cfg"]
+    return (tuple(map(tuple, c["P0"])), tuple(c["y0"]), tuple(c["ystep"]), tuple(c["shape"]),
+            c["f0"], tuple(c["dty0"]), tuple(c["ymin"]), tuple(s["a"] for s in rec["op"]))
+
+
+def _walk_violation(chk, recs, vec, turns, fails):
+    rec = recs[0]
+    chk.violation("walk %s from %s at omega=%s%s: %s" % ("->".join(s["a"] for s in rec["op"]), rec["cfg"]["f0"],
+                                                         [r["cfg"]["om"] for r in recs] if vec else rec["cfg"]["om"],
+                                                         " (+%s turns)" % turns if any(turns) else "", fails[0]),
+                  {"kind": "walk", "vector": vec, "recs": recs, "turns": turns, "failures": fails})
+
+
 def judge_walk(chk, rec, idx):
-    vec = bool(idx % 2)
+    """scalar arguments; omega of the degree routes shifted by -1 / 0 / +1 whole turns"""
+    turns = [idx % 3 - 1]
     try:
-        fails = replay_walk(rec, vector=vec)
+        fails = replay_walk(rec, vector=False, turns=turns)
     except RealCodeError as e:
         fails = [str(e)]
-    chk.case(walk_key(rec), nontrivial=walk_nontrivial(rec))
-    chk.traces += 1
     if fails:
-        chk.violation("walk %s from %s at omega=%s: %s" % ("->".join(s["a"] for s in rec["op"]), rec["cfg"]["f0"],
-                                                            rec["cfg"]["om"], fails[0]),
-                      {"kind": "walk", "vector": vec, "rec": rec, "failures": fails})
+        _walk_violation(chk, [rec], False, turns, fails)
+    return fails
+
+
+def judge_group(chk, recs, idx):
+    """array arguments with one element per record of the group (distinct positions / omega / dty per element)"""
+    recs = list(recs) if len(recs) > 1 else [recs[0], recs[0]]
+    turns = [(idx + i) % 3 - 1 for i in range(len(recs))]
+    try:
+        fails = replay_walk(recs, vector=True, turns=turns)
+    except RealCodeError as e:
+        fails = [str(e)]
+    if fails:
+        _walk_violation(chk, recs, True, turns, fails)
     return fails
 
 
 # --------------------------------------------------------------------------------------------------
-# partition of the angles over the workers
+# partition of the projections over the workers (PART machine), in this process and in restricted children
 
-class _Recorder(object):
-    def __init__(self):
-        self.jobs = []
-
-    def namespace(self):
-        import concurrent.futures as cf
-        rec = self
-
-        class Pool(object):
-            def __init__(self, max_workers=None, *a, **k):
-                self.mw = max_workers
-                self.p = cf.ThreadPoolExecutor(max_workers=max_workers)
-
-            def __enter__(self):
-                return self
-
-            def __exit__(self, *a):
-                self.p.shutdown()
-                return False
-
-            def map(self, fn, jobs, *a, **k):
-                jobs = [list(j) for j in jobs]
-                rec.jobs.append((self.mw, jobs))
-                return self.p.map(fn, jobs)
-
-            def submit(self, fn, job, *a, **k):
-                try:
-                    rec.jobs.append((self.mw, [list(job)]))
-                except TypeError:
-                    pass
-                return self.p.submit(fn, job, *a, **k)
-
-            def shutdown(self, *a, **k):
-                self.p.shutdown()
-        fut = types.SimpleNamespace(**{k: getattr(cf, k) for k in dir(cf) if not k.startswith("_")})
-        fut.ThreadPoolExecutor = Pool
-        return types.SimpleNamespace(futures=fut)
+PART_REQUESTS = list(range(1, 17)) + [None, -1]      # judged: 1..16 and None (= cores_available()); -1 observed only
+PART_MAXN = 17                                        # PMaxN of ScanGeom_part.cfg
+PART_NS_QUICK = [1, 2, 3, 5, 8, 12, 16, 17]
+# what a batch system exports for a small allocation; the count differs from the affinity mask in both directions
+BATCH_ENV_COUNT = {1: 4, 2: 1, 3: 2, None: 2}
 
 
-def recorded_iradon(sino, theta, workers, **kw):
-    """run roi_iradon.iradon with the thread pool replaced by a recording one"""
-    ri = M.roi_iradon
-    r = _Recorder()
-    old = ri.concurrent
-    ri.concurrent = r.namespace()
-    try:
-        out = call(ri.iradon, sino, theta, workers=workers, **kw)
-    finally:
-        ri.concurrent = old
-    return out, r.jobs
+def batch_env(k):
+    v = str(BATCH_ENV_COUNT[k])
+    return {"OMP_NUM_THREADS": v, "SLURM_CPUS_PER_TASK": v, "SLURM_JOB_CPUS_PER_NODE": v, "SLURM_CPUS_ON_NODE": v,
+            "NUMBER_OF_PROCESSORS": v, "OPENBLAS_NUM_THREADS": v, "MKL_NUM_THREADS": v}
 
 
-def part_case(rec):
-    """rec = {n, w, jobs}: the jobs given to the pool are the specification's; the result does not depend on w"""
-    n, w = rec["n"], rec["w"]
-    rng = np.random.default_rng(1000 * n + w)
-    ny = 9 + (n % 2)
-    sino = rng.integers(0, 5, size=(ny, n)).astype(float)
-    theta = np.linspace(0.0, 180.0, n, endpoint=False)
+def usable_cpus():
+    return len(os.sched_getaffinity(0)) if hasattr(os, "sched_getaffinity") else (os.cpu_count() or 1)
+
+
+class PartTable(object):
+    """the records EmitPart printed: (n, w = stride, p = pool size) -> jobs, ok, ndrop, ndup, law"""
+
+    def __init__(self, parts):
+        self.rec, self.byjobs = {}, {}
+        for r in parts:
+            self.rec[(r["n"], r["w"], r["p"])] = r
+            self.byjobs.setdefault((r["n"], self.jkey(r["jobs"])), []).append(r)
+        self.maxw = max(r["w"] for r in parts)
+        self.maxn = max(r["n"] for r in parts)
+
+    @staticmethod
+    def jkey(jobs):
+        return tuple(tuple(int(i) for i in j) for j in jobs)
+
+    def law(self, n, req, cores):
+        """the record the code's law (EffWorkers / PoolOf / StrideOf of the specification) selects"""
+        eff = cores if (req is None or req < 1) else req
+        r = self.rec.get((n, eff, eff))
+        if r is not None and not (r["law"] and r["ok"]):
+            raise common.MachineryError("specification: the law record (n=%d, w=p=%d) is not a partition" % (n, eff))
+        return r
+
+
+def part_judged(req):
+    return req is None or 1 <= req <= 16
+
+
+def judge_part_row(tab, row, cores, where=""):
+    """row = {n, req, pool, jobs, diff, scale[, raised]} recorded from the real iradon on `cores` usable cpus.
+    Returns (failures, info)."""
+    n, req = row["n"], row["req"]
+    info = {"recorded": False, "law": None, "obs": None}
     fails = []
-    ref = call(M.roi_iradon.iradon, sino, theta, workers=1, output_size=ny + 3,
-               projection_shifts=np.full(sino.shape, 0.25))
-    out, jobs = recorded_iradon(sino, theta, w, output_size=ny + 3, projection_shifts=np.full(sino.shape, 0.25))
-    if w >= 2:
-        if len(jobs) == 1 and jobs[0][1] is not None:
-            got = jobs[0][1]
-            if got != rec["jobs"]:
-                fails.append("jobs handed to the pool for n=%d workers=%d are %r, specification %r" %
-                             (n, w, got, rec["jobs"]))
-        elif len(jobs) > 1:
-            got = [j[1][0] for j in jobs]
-            if sorted(map(tuple, got)) != sorted(map(tuple, rec["jobs"])):
-                fails.append("jobs submitted for n=%d workers=%d are %r, specification %r" % (n, w, got, rec["jobs"]))
-    else:
-        if rec["jobs"] != [list(range(n))]:
-            raise common.MachineryError("specification: Partition(n,1) is not the identity")
-    s = float(np.abs(ref).max())
-    d = float(np.abs(out - ref).max())
-    if not d <= REL * s + 1e-300:
-        fails.append("iradon(workers=%d) differs from workers=1 by %.3g (max %.3g) for %d angles" % (w, d, s, n))
-    return fails, len(jobs)
+    if row.get("raised"):
+        msg = "iradon(workers=%r) with %d projections%s raised %s" % (req, n, where, row["raised"])
+        if part_judged(req):
+            fails.append(msg)
+        else:
+            info["obs"] = msg
+        return fails, info
+    jobs = row.get("jobs")
+    law = tab.law(n, req, cores)
+    if jobs is not None and law is not None:
+        info["recorded"] = True
+        if [list(j) for j in jobs] == law["jobs"]:
+            info["law"] = True
+        else:
+            same = tab.byjobs.get((n, tab.jkey(jobs)))
+            if same is None:
+                fails.append("workers=%r%s: the jobs handed to the pool for %d projections are %r: not [todo[j::w] for j < p] "
+                             "for any stride w and pool size p of the specification (its law gives w = p = %d: %r)" %
+                             (req, where, n, jobs, law["w"], law["jobs"]))
+            elif not same[0]["ok"]:
+                r = same[0]
+                fails.append("workers=%r%s: iradon handed [todo[j::%d] for j < %d] to a pool of %r for %d projections; the "
+                             "specification's record (n=%d, stride=%d, pool=%d) is not a partition: %d projections dropped, "
+                             "%d taken twice (its law gives stride = pool = %d)" %
+                             (req, where, r["w"], r["p"], row.get("pool"), n, n, r["w"], r["p"], r["ndrop"], r["ndup"],
+                              law["w"]))
+            else:
+                info["law"] = False              # a partition of the specification, reached by another (w, p) pair
+    s, d = row.get("scale", 0.0), row.get("diff")
+    if d is None or not d <= REL * s + 1e-300:
+        msg = ("iradon(workers=%r)%s differs from workers=1 by %.3g (max of the reconstruction %.3g) for %d projections"
+               % (req, where, float("nan") if d is None else d, s, n))
+        if part_judged(req):
+            fails.append(msg)
+        else:
+            info["obs"] = msg
+    return fails, info
+
+
+def part_row_inprocess(n, req):
+    """the small sinogram of n projections through the real iradon in THIS process"""
+    import c19_child
+    ri = M.roi_iradon
+    sino, theta, ny = c19_child.part_sino(np, n)
+    kw = dict(output_size=ny + 3, projection_shifts=np.full(sino.shape, 0.25))
+    ref = call(ri.iradon, sino, theta, workers=1, **kw)
+    row = {"n": n, "req": req, "scale": float(np.abs(ref).max())}
+    try:
+        out, jobs = c19_child.recorded(ri, ri.iradon, sino, theta, workers=req, **kw)
+        fj = c19_child.flat_jobs(jobs)
+        row["pool"], row["jobs"] = fj if fj else (None, None)
+        row["diff"] = float(np.abs(out - ref).max())
+    except Exception as e:             # noqa - anything the code under test raises
+        row["raised"] = repr(e)[:300]
+    return row
+
+
+def part_case(rec, tab=None):
+    """rec = law record {n, w, p = w, jobs, ...}: the jobs given to the pool in this process are the
+    specification's and the result does not depend on w.  Returns (failures, jobs were recorded)."""
+    if tab is None:
+        tab = PartTable([rec])
+    if rec["w"] == 1 and rec["jobs"] != [list(range(rec["n"]))]:
+        raise common.MachineryError("specification: todo[0::1] is not the identity")
+    row = part_row_inprocess(rec["n"], rec["w"])
+    fails, info = judge_part_row(tab, row, usable_cpus())
+    return fails, info["recorded"]
+
+
+def child_tasks(recon_cases, thorough, seed):
+    """(task, environment) for every restricted child.  Masks of 1, 2, 3 cpus and the unrestricted mask, each with
+    and without the variables of a batch allocation."""
+    ns = list(range(1, PART_MAXN + 1)) if thorough else PART_NS_QUICK
+    have = usable_cpus()
+    tasks = []
+    for k in (1, 2, 3, None):
+        if k is not None and k > have:
+            continue
+        if thorough:
+            envs = (None, "batch") if k is not None else ("batch",)
+        else:                                   # quick: each mask once, the environments alternate with the seed
+            envs = ("batch",) if (k is None or (seed + k) % 2) else (None,)
+        for env in envs:
+            t = {"affinity": k, "pick": seed * 7 + (k or 0), "ns": ns, "requests": PART_REQUESTS,
+                 "recon_requests": PART_REQUESTS if thorough else [1, 2, 3, 4, 5, 8, 16, None],
+                 "recon": [c["cfg"] for c in recon_cases], "consumers": True, "envname": env or "plain"}
+            tasks.append((t, batch_env(k) if env else {}))
+    return tasks
+
+
+def start_children(tasks):
+    import subprocess
+    scr = common.scratch()
+    procs = []
+    here = os.path.join(os.path.dirname(os.path.dirname(os.path.abspath(__file__))), "c19_child.py")
+    for i, (t, env_extra) in enumerate(tasks):
+        tf, of = os.path.join(scr, "c19_child_%d.json" % i), os.path.join(scr, "c19_child_%d.out.json" % i)
+        with open(tf, "w") as f:
+            json.dump(t, f)
+        env = dict(os.environ)
+        for k in batch_env(None):
+            env.pop(k, None)
+        env.update(env_extra)
+        env["NUMBA_CACHE_DIR"] = os.environ.get("NUMBA_CACHE_DIR", "/var/tmp/imaged11_verif_numba_c19")
+        p = subprocess.Popen([sys.executable, here, M.shadow, tf, of], env=env, stdout=subprocess.PIPE,
+                             stderr=subprocess.STDOUT, text=True)
+        procs.append((p, t, env_extra, of))
+    return procs
+
+
+def collect_children(procs, timeout=1500):
+    out = []
+    t0 = time.time()
+    for p, t, env_extra, of in procs:
+        try:
+            so, _ = p.communicate(timeout=max(timeout - (time.time() - t0), 60))
+        except Exception:                                   # noqa
+            p.kill()
+            raise common.MachineryError("restricted child (affinity %r) did not finish" % t["affinity"])
+        if not os.path.exists(of):
+            raise common.MachineryError("restricted child (affinity %r) wrote no result\n%s" % (t["affinity"], so[-2000:]))
+        res = json.load(open(of))
+        if res.get("error"):
+            raise common.MachineryError("restricted child (affinity %r): %s" % (t["affinity"], res["error"]))
+        out.append((t, env_extra, res))
+    return out
+
+
+def judge_child(tab, t, env_extra, res, recon_cases):
+    """-> list of (what, replay object), counters"""
+    cores = res["mask"] if res.get("mask") else res["cores_available"]
+    cnt = {"rows": 0, "recorded": 0, "capped_requests": 0, "law_differs": 0, "obs": []}
+    if t["affinity"] and res.get("mask") != min(t["affinity"], usable_cpus()):
+        raise common.MachineryError("child affinity mask is %r, asked for %r" % (res.get("mask"), t["affinity"]))
+    if res["cores_available"] != cores:
+        cnt["obs"].append("cImageD11.cores_available() = %d in a process with %d cpus in its mask" % (res["cores_available"], cores))
+        cores = res["cores_available"]
+    where = " in a process with %d usable cpu%s (%s environment)" % (cores, "" if cores == 1 else "s", t["envname"])
+    bad = []
+    first = {}
+    for row in res["part"]:
+        fails, info = judge_part_row(tab, row, cores, where)
+        cnt["rows"] += 1
+        cnt["recorded"] += bool(info["recorded"])
+        cnt["law_differs"] += info["law"] is False
+        if row["req"] is not None and row["req"] > cores:
+            cnt["capped_requests"] += 1
+        if info["obs"]:
+            cnt["obs"].append(info["obs"])
+        if fails:
+            first.setdefault(("part", row["n"]), (fails, row))
+    for (kind, n), (fails, row) in sorted(first.items())[:3]:
+        bad.append(("worker sweep%s, %d projections: %s" % (where, n, fails[0]),
+                    {"kind": "child", "task": dict(t, ns=[n], requests=[row["req"]], recon=[]), "env": env_extra,
+                     "failures": fails}))
+    firstr = {}
+    for row in res["recon"]:
+        c = recon_cases[row["case"]]
+        cnt["rows"] += 1
+        fails = judge_recon_row(c, row, where)
+        if fails and part_judged(row["req"]):
+            firstr.setdefault(row["case"], (fails, row))
+        elif fails:
+            cnt["obs"].append(fails[0])
+    for ci, (fails, row) in sorted(firstr.items())[:2]:
+        c = recon_cases[ci]["cfg"]
+        bad.append(("point grain at (%s, %s) ny=%d scan=%d%s: %s" % (q(c["sx"]), q(c["sy"]), c["ny"], c["scan"], where, fails[0]),
+                    {"kind": "child", "task": dict(t, ns=[], requests=[row["req"]], recon=[c]), "env": env_extra,
+                     "rec": recon_cases[ci], "failures": fails}))
+    return bad, cnt
+
+
+def judge_recon_row(rec, row, where):
+    """a full-size reconstruction of a RECON case in a child: equal to the one-worker one, peak where predicted"""
+    fails = []
+    if row.get("raised"):
+        return ["run_iradon(workers=%r)%s raised %s" % (row["req"], where, row["raised"])]
+    s = row["scale"]
+    for key, nm in (("diff", "run_iradon"), ("diff_gs", "GrainSinogram.recon")):
+        if key in row and not row[key] <= REL * s:
+            fails.append("%s(workers=%r)%s differs from run_iradon(workers=1) by %.3g (max of the reconstruction %.3g)" %
+                         (nm, row["req"], where, row[key], s))
+    if row.get("covered") is False:
+        fails.append("run_iradon(workers=%r)%s: the jobs handed to the pool (%r jobs, pool of %r) do not cover every "
+                     "projection once" % (row["req"], where, row.get("njobs"), row.get("pool")))
+    pred = pred_for_shape(rec, row["shape"][0])
+    d = math.hypot(row["peak"][0] - pred[0], row["peak"][1] - pred[1])
+    if not d <= FBP_PX:
+        fails.append("reconstruction%s peaks at %r, %.3f px from the predicted (%.3f, %.3f)" % (where, row["peak"], d, pred[0], pred[1]))
+    return fails
 
 
 # --------------------------------------------------------------------------------------------------
 # mode A: reconstruction cases
 
-def point_sino(c):
-    """point-grain sinogram built with the module's own functions"""
-    g = M.geometry
-    sx, sy, y0, ystep, ymin = fl(c["sx"]), fl(c["sy"]), fl(c["y0"]), fl(c["ystep"]), fl(c["ymin"])
-    ny, scan = c["ny"], c["scan"]
-    omega = np.arange(0, scan, 1.0)
-    dty = call(g.dty_values_grain_in_beam, sx, sy, y0, omega)
-    dtyi = call(g.dty_to_dtyi, dty, ystep, ymin)
-    sino = np.zeros((ny, len(omega)), dtype=float)
-    inside = (dtyi >= 0) & (dtyi < ny)
-    sino[dtyi[inside], np.arange(len(omega))[inside]] = 1.0
-    return sino, omega, dty, dtyi, int((~inside).sum())
+def point_sino(c, omega=None, dtype=float):
+    """point-grain sinogram built with the module's own functions (omega: default arange(0, scan, 1.0))"""
+    import c19_child
+    return call(c19_child.point_sino, np, M.geometry, c, omega, dtype)
+
+
+def pred_for_shape(rec, o):
+    """the specification's predicted pixel (SampleToRecon = step coordinates + shape // 2) on an o x o reconstruction"""
+    r = rec["rec"]
+    d = o // 2 - r["outsize"] // 2
+    return (fl(r["pred"][0]) + d, fl(r["pred"][1]) + d)
 
 
 def peak_distance(recon, pred):
@@ -425,9 +672,10 @@ def peak_distance(recon, pred):
     return float(d[k]), (int(ii[k]), int(jj[k])), len(ii)
 
 
-def recon_case(rec, level=0):
-    """One specification case against the real code.  level 0: FBP + geometry functions;
-    level 1: + consumers (GrainSinogram.recon, PBPRefine.setmap/setmask), workers, ROI masks, linearity.
+def recon_case(rec, level=0, ordinal=None):
+    """One specification case against the real code.  level 0: FBP + geometry functions + fit + one other
+    description of the scan; level 1: + consumers (GrainSinogram.recon, PBPRefine.setmap/setmask), workers,
+    ROI masks, linearity, iradon options (chosen by ordinal), float32.
     Returns (failures, info)."""
     g, ri = M.geometry, M.roi_iradon
     c, r = rec["cfg"], rec["rec"]
@@ -435,22 +683,36 @@ def recon_case(rec, level=0):
     ny, scan = c["ny"], c["scan"]
     fails = []
     info = {}
+    if ordinal is not None:
+        info["ordinal"] = ordinal
     big = max(abs(y0), abs(ymin), abs(fl(c["ymax"])), 1.0)
+    # every length of the case is a multiple of ystep / 4: with a step that is not a binary fraction no float of
+    # the implementation is exact, and where the exact value sits on a ceil / floor / round boundary either side
+    # is a correct answer (the specification's integer, or its neighbour on the far side)
+    inexact = not dyadic(c["ystep"])
+    info["inexact"] = inexact
     # -- shift and pad
     shift, pad = call(g.sino_shift_and_pad, y0, ny, ymin, ystep)
     if not close(shift, q(r["shift"]), max(ny, abs(fl(r["shift"])))):
         fails.append("sino_shift_and_pad: shift = %r, specification %s" % (shift, q(r["shift"])))
-    if int(pad) != r["ownpad"]:
+    padtie = inexact and (2 * q(r["shift"])).denominator == 1         # pad = ceil(2 |shift|) + 1
+    if int(pad) != r["ownpad"] and not (padtie and int(pad) == r["ownpad"] + 1):
         fails.append("sino_shift_and_pad: pad = %r, specification %d" % (pad, r["ownpad"]))
     # -- grid
     ybincens = ymin + np.arange(ny) * ystep
     gridn = None
+    qy0, qys = q(c["y0"]), q(c["ystep"])
+    gridtie = inexact and (max(abs(q(c["ymin"]) - qy0), abs(q(c["ymax"]) - qy0)) / qys).denominator == 1
     for gs, first, last, cnt in r["grids"]:
         pts = call(g.step_grid_from_ybincens, ybincens, ystep, gs, y0)
         ints = sorted(set(int(p[0]) for p in pts))
-        exp = list(range(first, last + 1, gs))
-        if len(exp) != cnt:
+        if len(range(first, last + 1, gs)) != cnt or first != r["glo"]:
             raise common.MachineryError("specification grid count inconsistent")
+        lo = ints[0] if ints else None
+        if lo == first or (gridtie and lo == first - 1):
+            exp = list(range(lo, -lo + 1, gs))            # ints = range(floor(-L), ceil(L) + 1, gridstep)
+        else:
+            exp = list(range(first, last + 1, gs))
         want = [(i, j) for i in exp for j in exp]
         if [(int(p[0]), int(p[1])) for p in pts] != want:
             fails.append("step_grid_from_ybincens(gridstep=%d): ints %r..%r (%d points), specification %d..%d step %d"
@@ -459,13 +721,14 @@ def recon_case(rec, level=0):
             gridn = int(round(math.sqrt(len(pts))))
     # -- the pad the consumer passes
     if c["padmode"] == "own":
-        usepad = int(pad)
+        usepad, slack = int(pad), (1 if padtie else 0)
     elif c["padmode"] == "own3":
-        usepad = int(pad) + 3
+        usepad, slack = int(pad) + 3, (1 if padtie else 0)
     else:
-        usepad = gridn - ny            # PBPRefine.setmask: self.sx_grid.shape[0] - whole_sample_sino.shape[0]
-    if usepad != r["pad"]:
+        usepad, slack = gridn - ny, (2 if gridtie else 0)    # PBPRefine.setmask: self.sx_grid.shape[0] - whole_sample_sino.shape[0]
+    if usepad not in (r["pad"], r["pad"] + slack):
         fails.append("pad handed to run_iradon (%s) = %r, specification %d" % (c["padmode"], usepad, r["pad"]))
+    info["pad_other_side"] = usepad != r["pad"]
     # -- sinogram rows / voxel windows at the exact angles
     sn = np.array([a["a"][1] / float(a["a"][2]) for a in r["ang"]])
     cs = np.array([a["a"][0] / float(a["a"][2]) for a in r["ang"]])
@@ -473,7 +736,7 @@ def recon_case(rec, level=0):
     rows = np.atleast_1d(call(g.dty_to_dtyi, dib, ystep, ymin))
     qymin, qystep = q(c["ymin"]), q(c["ystep"])
     for k, a in enumerate(r["ang"]):
-        exact = a["a"][2] == 1
+        exact = a["a"][2] == 1 and not inexact
         if not close(dib[k], q(a["dib"]), big):
             fails.append("dty_values_grain_in_beam_sincos at %s = %r, specification %s" % (a["a"], dib[k], q(a["dib"])))
         u = (q(a["dib"]) - qymin) / qystep
@@ -487,7 +750,7 @@ def recon_case(rec, level=0):
                       ymin + ii * ystep, float(ystep))
     got = set(int(v) for v in idx)
     for k, a in enumerate(r["ang"]):
-        exact = a["a"][2] == 1
+        exact = a["a"][2] == 1 and not inexact
         for i in range(ny):
             flat = k * ny + i
             inside = a["vlo"] <= i <= a["vhi"]
@@ -503,13 +766,13 @@ def recon_case(rec, level=0):
     if nout:
         fails.append("%d of %d projections of a point inside the scanned disc fall outside the sinogram" % (nout, len(omega)))
     recon = call(ri.run_iradon, sino, omega, pad=usepad, shift=shift)
-    if recon.shape != (r["outsize"], r["outsize"]):
+    if recon.shape != (ny + usepad, ny + usepad) or recon.shape[0] not in (r["outsize"], r["outsize"] + slack):
         fails.append("run_iradon output shape %r, specification %d" % (recon.shape, r["outsize"]))
-    pred = (fl(r["pred"][0]), fl(r["pred"][1]))
+    pred = pred_for_shape(rec, recon.shape[0])
     pi, pj = call(g.sample_to_recon, sx, sy, recon.shape, ystep)
     if not (close(pi, pred[0], r["outsize"]) and close(pj, pred[1], r["outsize"])):
-        fails.append("sample_to_recon on the reconstruction shape = (%r, %r), specification (%s, %s)" %
-                     (pi, pj, q(r["pred"][0]), q(r["pred"][1])))
+        fails.append("sample_to_recon on the reconstruction shape = (%r, %r), specification (%.17g, %.17g)" %
+                     (pi, pj, pred[0], pred[1]))
     dist, where, nmax = peak_distance(recon, pred)
     info["dist"] = dist
     if not dist <= FBP_PX:
@@ -518,8 +781,39 @@ def recon_case(rec, level=0):
     bx, by = call(g.recon_to_sample, where[0], where[1], recon.shape, ystep)
     if not math.hypot(bx - sx, by - sy) <= FBP_PX * ystep * (1 + 1e-9):
         fails.append("recon_to_sample(peak) = (%r, %r) is more than 1.5 steps from the grain (%r, %r)" % (bx, by, sx, sy))
+    # -- the inverse of dty_values_grain_in_beam: the fit of (sx, sy, y0) to the in-beam dty of the scan returns
+    #    what the specification solves exactly from three projections (FitInverts)
+    want = [fl(v) for v in r["fit"]]
+    fscale = max([abs(v) for v in want] + [abs(ymin), abs(fl(c["ymax"])), ystep])
+    fits = [("sx_sy_y0_from_dty_omega(dty, omega)", lambda: g.sx_sy_y0_from_dty_omega(dty, omega))]
+    if level >= 1:
+        fits.append(("fit_sine_wave(omega, dty, (0.5, 0.5, 0), weights=1)",
+                     lambda: g.fit_sine_wave(omega, dty, (0.5, 0.5, 0), weights=np.ones(len(omega)))))
+    for nm, fn in fits:
+        got = [float(v) for v in call(fn)]
+        info["fit_err"] = max(info.get("fit_err", 0.0), max(abs(a - b) for a, b in zip(got, want)) / fscale)
+        if not all(abs(a - b) <= FIT_REL * fscale for a, b in zip(got, want)):
+            fails.append("%s = %r for the in-beam dty of the point, specification (sx, sy, y0) = (%s, %s, %s)" %
+                         (nm, got, q(r["fit"][0]), q(r["fit"][1]), q(r["fit"][2])))
+    # -- other descriptions of the same scan: whole turns added to omega, a 2 degree scan run backwards, an offset start
+    variant = (c["pq"][0] + c["pq"][1] + c["offh"] + ny + c["scan"] // 180) % 3
+    rngv = np.random.default_rng((c["pq"][0] * 131 + c["pq"][1] * 17 + c["offh"] * 7 + ny) & 0xffff)
+    if variant == 0:
+        om2, vname = omega + 360.0 * rngv.integers(-1, 2, len(omega)), "omega + 360 k, k in {-1, 0, 1} per projection"
+    elif variant == 1:
+        om2, vname = np.arange(scan - 1.0, -0.5, -2.0), "omega = scan-1, scan-3, ... (2 degree steps, decreasing)"
+    else:
+        om2, vname = np.arange(0, scan, 1.0) + 0.37, "omega = 0.37, 1.37, ..."
+    sino2, _, _, _, nout2 = point_sino(c, om2)
+    rec2 = call(ri.run_iradon, sino2, om2, pad=usepad, shift=shift)
+    d2, wh2, _ = peak_distance(rec2, pred)
+    info["variant"] = variant
+    info["dist"] = max(dist, d2)
+    if nout2 or not d2 <= FBP_PX:
+        fails.append("scan described as %s: reconstruction peaks at %r, %.3f px from the predicted (%.3f, %.3f); %d "
+                     "projections outside the sinogram" % (vname, wh2, d2, pred[0], pred[1], nout2))
     if level >= 1 and not fails:
-        fails += _recon_extras(rec, sino, omega, dty, shift, usepad, recon, pred, where)
+        fails += _recon_extras(rec, sino, omega, dty, shift, usepad, recon, pred, where, info)
         # class of the known-finding candidate: only ROI comparisons fail
         info["roi_only"] = bool(fails) and all(f.startswith("ROI mask") for f in fails)
     return fails, info
@@ -529,7 +823,65 @@ def _maxdiff(a, b):
     return float(np.abs(np.asarray(a) - np.asarray(b)).max())
 
 
-def _recon_extras(rec, sino, omega, dty, shift, usepad, recon, pred, where):
+def _roi_masks(n, where, rng, few=False):
+    masks = {}
+    m = np.zeros((n, n), bool)
+    i0, i1 = max(where[0] - 2, 0), min(where[0] + 3, n)
+    j0, j1 = max(where[1] - 2, 0), min(where[1] + 3, n)
+    m[i0:i1, j0:j1] = True
+    masks["peak neighbourhood"] = m
+    m = np.zeros((n, n), bool)
+    a0, a1 = sorted(rng.integers(0, n, 2))
+    b0, b1 = sorted(rng.integers(0, n, 2))
+    m[a0:a1 + 1, b0:b1 + 1] = True
+    masks["sub-rectangle"] = m
+    if few:
+        return masks
+    masks["random"] = rng.random((n, n)) < 0.3
+    masks["single pixel"] = np.zeros((n, n), bool)
+    masks["single pixel"][where] = True
+    masks["all"] = np.ones((n, n), bool)
+    masks["empty"] = np.zeros((n, n), bool)
+    return masks
+
+
+def _options_run(tag, sino, s2, omega, kw, rng, peak, rel, heavy):
+    """the relational clauses of the statement on iradon(**kw): independent of the worker count and of an ROI mask,
+    linear in the sinogram.  kw = every option but workers and mask."""
+    ri = M.roi_iradon
+    fails = []
+    base = call(ri.iradon, sino, theta=omega, workers=1, **kw)
+    s = float(np.abs(base).max())
+    n = base.shape[0]
+    ws = [3, None] if heavy else [2, 5, 16, None, int(rng.integers(2, 17))]
+    for w in ws:
+        rw = call(ri.iradon, sino, theta=omega, workers=w, **kw)
+        if rw.shape != base.shape or not _maxdiff(rw, base) <= rel * s:
+            fails.append("%s: workers=%r differs from workers=1 by %.3g (max %.3g)" % (tag, w, _maxdiff(rw, base), s))
+            break
+    where = np.unravel_index(int(np.argmax(base)), base.shape) if peak is None else peak
+    where = (min(int(where[0]), n - 1), min(int(where[1]), n - 1))
+    for nm, m in _roi_masks(n, where, rng, few=True).items():
+        for w in ((3,) if heavy else (1, 3)):
+            rm = call(ri.iradon, sino, theta=omega, workers=w, mask=m, **kw)
+            din = _maxdiff(rm[m], base[m]) if m.any() else 0.0
+            dout = float(np.abs(rm[~m]).max()) if (~m).any() else 0.0
+            if rm.shape != base.shape or not din <= rel * s or dout != 0.0:
+                fails.append("%s: ROI mask '%s' (workers=%d): inside differs from the full reconstruction by %.3g, "
+                             "outside max %.3g (max of the reconstruction %.3g)" % (tag, nm, w, din, dout, s))
+                break
+    r2 = call(ri.iradon, s2, theta=omega, workers=1, **kw)
+    for (ca, cb) in (((2, -3),) if heavy else ((1, 1), (2, -3))):
+        rc = call(ri.iradon, (ca * sino + cb * s2).astype(sino.dtype), theta=omega, workers=1, **kw)
+        sc_ = abs(ca) * s + abs(cb) * float(np.abs(r2).max())
+        d = _maxdiff(rc, ca * base + cb * r2)
+        if not d <= rel * sc_:
+            fails.append("%s: not linear: R(%d a + %d b) differs from %d R(a) + %d R(b) by %.3g (scale %.3g)" %
+                         (tag, ca, cb, ca, cb, d, sc_))
+    return fails, base
+
+
+def _recon_extras(rec, sino, omega, dty, shift, usepad, recon, pred, where, info):
     g, ri = M.geometry, M.roi_iradon
     c, r = rec["cfg"], rec["rec"]
     y0, ystep, ymin, ny = fl(c["y0"]), fl(c["ystep"]), fl(c["ymin"]), c["ny"]
@@ -545,29 +897,17 @@ def _recon_extras(rec, sino, omega, dty, shift, usepad, recon, pred, where):
                   interpolation="linear", workers=1)
     if _maxdiff(direct, recon) > tol:
         fails.append("iradon(...) and run_iradon(...) differ by %.3g" % _maxdiff(direct, recon))
-    # -- worker count 1..16
-    for w in range(2, 17):
+    # -- worker count 1..16, and None (= cImageD11.cores_available() workers)
+    for w in list(range(2, 17)) + [None]:
         rw = call(ri.run_iradon, sino, omega, pad=usepad, shift=shift, workers=w)
         d = _maxdiff(rw, recon)
         if not d <= tol:
-            fails.append("run_iradon(workers=%d) differs from workers=1 by %.3g (max %.3g)" % (w, d, s))
+            fails.append("run_iradon(workers=%r) differs from workers=1 by %.3g (max %.3g)" % (w, d, s))
             break
     # -- ROI masks
-    masks = {}
-    m = np.zeros((n, n), bool)
     i0, i1 = max(where[0] - 2, 0), min(where[0] + 3, n)
     j0, j1 = max(where[1] - 2, 0), min(where[1] + 3, n)
-    m[i0:i1, j0:j1] = True
-    masks["peak neighbourhood"] = m
-    m = np.zeros((n, n), bool)
-    a0, a1 = sorted(rng.integers(0, n, 2))
-    b0, b1 = sorted(rng.integers(0, n, 2))
-    m[a0:a1 + 1, b0:b1 + 1] = True
-    masks["sub-rectangle"] = m
-    masks["random"] = rng.random((n, n)) < 0.3
-    masks["single pixel"] = np.zeros((n, n), bool)
-    masks["single pixel"][where] = True
-    masks["all"] = np.ones((n, n), bool)
+    masks = _roi_masks(n, where, rng)
     for nm, m in masks.items():
         for w in (1, 3):
             rm = call(ri.run_iradon, sino, omega, pad=usepad, shift=shift, workers=w, mask=m)
@@ -593,6 +933,70 @@ def _recon_extras(rec, sino, omega, dty, shift, usepad, recon, pred, where):
         if not d <= REL * sc_:
             fails.append("FBP not linear: R(%d a + %d b) differs from %d R(a) + %d R(b) by %.3g (scale %.3g)" %
                          (ca, cb, ca, cb, d, sc_))
+    # -- the options of iradon the consumers leave at their defaults: interpolation, filter, no shifts, no output size
+    #    (the model is covariant in them: PART / the frame laws do not mention the interpolant or the filter);
+    #    judged: the relational clauses; the 1.5 px bound where the interpolation is linear and a filter is applied
+    j = info.get("ordinal", seed)
+    obs = info.setdefault("obs", [])
+    runs = info.setdefault("option_runs", [])
+    shifts = np.full(sino.shape, shift)
+    combos = [(INTERPS[j % 3], FILTERS[(j // 3) % 6], True, True),             # ordinals 0..17: every pair once
+              (INTERPS[(j + 1) % 3], FILTERS[(j // 3 + 3) % 6], True, True),
+              ("linear", FILTERS[(j + 1) % 6], j % 2 == 0, j % 4 >= 2)]
+    for interp, filt, with_shift, with_size in combos:
+        kw = dict(filter_name=filt, interpolation=interp)
+        if with_shift:
+            kw["projection_shifts"] = shifts
+        if with_size:
+            kw["output_size"] = ny + usepad
+        tag = "iradon(%s)" % ", ".join("%s=%s" % (k, "<shift>" if k == "projection_shifts" else repr(v)) for k, v in sorted(kw.items()))
+        if interp == "linear":
+            f2, base = _options_run(tag, sino, s2, omega, kw, rng, where if (with_shift and with_size) else None, REL, False)
+        else:
+            # scipy's interp1d is slow: every third projection (the relational clauses do not need the whole scan)
+            kw["projection_shifts"] = shifts[:, ::3]
+            f2, base = _options_run(tag + " on every third projection", sino[:, ::3], s2[:, ::3], omega[::3], kw, rng,
+                                    where, REL, heavy=(interp == "cubic"))
+        fails += f2
+        runs.append((interp, str(filt), with_shift, with_size))
+        if not with_shift:
+            # no shifts at all is a shift of zero
+            rz = call(ri.iradon, sino, theta=omega, workers=1, **dict(kw, projection_shifts=np.zeros(sino.shape)))
+            if rz.shape != base.shape or _maxdiff(rz, base) > REL * float(np.abs(base).max()):
+                fails.append("%s differs from the same call with projection_shifts = 0 by %.3g" % (tag, _maxdiff(rz, base)))
+        if with_shift and with_size and filt is not None:
+            dd, wh, _ = peak_distance(base, pred)
+            if interp == "linear":
+                if not dd <= FBP_PX:
+                    fails.append("%s peaks at %r, %.3f px from the predicted (%.3f, %.3f)" % (tag, wh, dd, pred[0], pred[1]))
+            else:
+                info["worst_nonlinear_interp_px"] = max(info.get("worst_nonlinear_interp_px", 0.0), dd)
+    # -- float32 sinograms (the reconstruction is float32: tolerance REL32); integer sinograms are not an input
+    #    kind of the statement (the consumers build float sinograms): what happens is recorded, not judged
+    sino32, s232 = sino.astype(np.float32), s2.astype(np.float32)
+    f2, base32 = _options_run("iradon(float32 sinogram)", sino32, s232, omega,
+                              dict(filter_name="hamming", interpolation="linear", projection_shifts=shifts, output_size=ny + usepad),
+                              rng, where, REL32, heavy=True)
+    fails += f2
+    if base32.shape != recon.shape or not _maxdiff(base32, recon) <= REL32 * s:
+        fails.append("float32 sinogram: reconstruction differs from the float64 one by %.3g (max %.3g)" % (_maxdiff(base32, recon), s))
+    elif not peak_distance(base32, pred)[0] <= FBP_PX:
+        fails.append("float32 sinogram: peak %.3f px from the prediction" % peak_distance(base32, pred)[0])
+    info["float32"] = info.get("float32", 0) + 1
+    for what, fn in (("int64 sinogram", lambda: ri.run_iradon(sino.astype(np.int64), omega, pad=usepad, shift=shift)),
+                     ("workers=0", lambda: ri.run_iradon(sino, omega, pad=usepad, shift=shift, workers=0)),
+                     ("workers=-1", lambda: ri.run_iradon(sino, omega, pad=usepad, shift=shift, workers=-1))):
+        try:
+            ro = fn()
+            obs.append("%s: returns %s, differs from the float64 one-worker reconstruction by %.3g of its maximum" %
+                       (what, ro.dtype, _maxdiff(ro, recon) / s))
+        except Exception as e:              # noqa - recorded only
+            obs.append("%s: raises %s" % (what, repr(e)[:160]))
+    try:
+        bl = g.fit_sample_position_from_recon(recon, ystep)
+        info["blob_steps"] = None if bl is None else math.hypot(bl[0] - fl(c["sx"]), bl[1] - fl(c["sy"])) / ystep
+    except Exception as e:                  # noqa - recorded only
+        obs.append("fit_sample_position_from_recon raises %s" % repr(e)[:160])
     # -- consumer 1: GrainSinogram.recon, parameters set as in nbGui/S3DXRD/tomo_2_map.ipynb
     ybincens = ymin + np.arange(ny) * ystep
     if c["padmode"] != "pbp":
@@ -617,6 +1021,14 @@ def _recon_extras(rec, sino, omega, dty, shift, usepad, recon, pred, where):
         rg = call(gs.recon, method="iradon", workers=2)
         if _maxdiff(rg[msk], recon[msk]) > tol or np.abs(rg[~msk]).max() != 0:
             fails.append("ROI mask: GrainSinogram.recon with recon_mask differs from the full reconstruction inside the mask")
+        # a subset of the projections (the `projections` argument) is the FBP of those columns
+        gs.recon_mask = None
+        sub = np.sort(rng.choice(len(omega), size=max(len(omega) // 3, 2), replace=False))
+        rg = call(gs.recon, method="iradon", workers=3, projections=sub)
+        rs = call(ri.run_iradon, sino[:, sub], omega[sub], pad=usepad, shift=shift)
+        if rg.shape != rs.shape or _maxdiff(rg, rs) > REL * float(np.abs(rs).max()):
+            fails.append("GrainSinogram.recon(projections=subset) differs from run_iradon on those columns by %.3g" % _maxdiff(rg, rs))
+        info["projection_subsets"] = info.get("projection_subsets", 0) + 1
     else:
         # -- consumer 2: PBPRefine.setmap / setmask
         pb = M.pbp
@@ -671,9 +1083,9 @@ def recon_key(rec):
 
 
 def _pool_recon(args):
-    rec, level = args
+    rec, level, ordinal = args
     try:
-        fails, info = recon_case(rec, level)
+        fails, info = recon_case(rec, level, ordinal)
     except RealCodeError as e:
         fails, info = [str(e)], {}
     return fails, info
@@ -683,7 +1095,11 @@ def run_recon_cases(chk, recs, levels, procs=8):
     """levels[i] = 0 / 1.  FBP cases are independent: fork a few processes."""
     import multiprocessing as mp
     worst = 0.0
-    items = list(zip(recs, levels))
+    ordinals, k = [], 0
+    for lv in levels:
+        ordinals.append(k if lv else None)
+        k += bool(lv)
+    items = list(zip(recs, levels, ordinals))
     results = None
     if procs > 1 and len(items) > 64:
         # compile the numba kernel once, before forking
@@ -691,16 +1107,38 @@ def run_recon_cases(chk, recs, levels, procs=8):
         try:
             ctx = mp.get_context("fork")
             with ctx.Pool(procs) as pool:
-                results = pool.map(_pool_recon, items, chunksize=8)
+                results = pool.map(_pool_recon, items, chunksize=4)
         except (OSError, ValueError):
             results = None
     if results is None:
         results = [_pool_recon(it) for it in items]
-    for (rec, level), (fails, info) in zip(items, results):
+    agg = {"inexact": 0, "pad_other_side": 0, "fit_err": 0.0, "variants": [0, 0, 0], "option_runs": {}, "float32": 0,
+           "projection_subsets": 0, "worst_nonlinear_interp_px": 0.0, "blob_none": 0, "blob_worst_steps": 0.0, "blob": 0,
+           "obs": {}}
+    for (rec, level, _), (fails, info) in zip(items, results):
         c = rec["cfg"]
         chk.case(recon_key(rec), nontrivial=(c["pq"] != [0, 0] or c["offh"] != 0))
         chk.traces += 1
         worst = max(worst, info.get("dist", 0.0))
+        agg["inexact"] += bool(info.get("inexact"))
+        agg["pad_other_side"] += bool(info.get("pad_other_side"))
+        agg["fit_err"] = max(agg["fit_err"], info.get("fit_err", 0.0))
+        if "variant" in info:
+            agg["variants"][info["variant"]] += 1
+        for o in info.get("option_runs", []):
+            agg["option_runs"]["/".join(map(str, o))] = agg["option_runs"].get("/".join(map(str, o)), 0) + 1
+        for k in ("float32", "projection_subsets"):
+            agg[k] += info.get(k, 0)
+        agg["worst_nonlinear_interp_px"] = max(agg["worst_nonlinear_interp_px"], info.get("worst_nonlinear_interp_px", 0.0))
+        if "blob_steps" in info:
+            agg["blob"] += 1
+            if info["blob_steps"] is None:
+                agg["blob_none"] += 1
+            else:
+                agg["blob_worst_steps"] = max(agg["blob_worst_steps"], info["blob_steps"])
+        for o in info.get("obs", []):
+            o = o.split(", differs")[0]
+            agg["obs"][o] = agg["obs"].get(o, 0) + 1
         if fails:
             what = ("point grain at (%s, %s) y0 offset %s/2 steps ny=%d ystep=%s scan=%d pad=%s: %s" %
                     (q(c["sx"]), q(c["sy"]), c["offh"], c["ny"], q(c["ystep"]), c["scan"], c["padmode"], fails[0]))
@@ -710,14 +1148,15 @@ def run_recon_cases(chk, recs, levels, procs=8):
                 chk.known_finding(ROI_FINDING, "ROI-restricted FBP differs from the full FBP where |shift| >= 1 "
                                                "(zero-padded projection shifts make np.interp's grid non-increasing)")
             else:
-                chk.violation(what, {"kind": "recon", "level": level, "rec": rec, "failures": fails})
-    return worst
+                chk.violation(what, {"kind": "recon", "level": level, "ordinal": info.get("ordinal"), "rec": rec,
+                                     "failures": fails})
+    return worst, agg
 
 
 # --------------------------------------------------------------------------------------------------
 
 def _tlc(chk, label, cfg, actions=None, **kw):
-    kw.setdefault("workers", 16)
+    kw.setdefault("workers", int(os.environ.get("C19_TLC_WORKERS", "16")))      # development knob on a shared box
     kw.setdefault("timeout", 1500)
     res = common.run_tlc("ScanGeom", os.path.join(common.SPECS, cfg), coverage=True, **kw)
     if res.violated:
@@ -736,6 +1175,52 @@ def _tlc(chk, label, cfg, actions=None, **kw):
     return recs
 
 
+def run_part(chk, parts):
+    """PART in this process: every (n, workers) of the code's law"""
+    tab = PartTable(parts)
+    nrec = 0
+    for rec in sorted((r for r in parts if r["law"]), key=lambda r: (r["n"], r["w"])):
+        try:
+            fails, recorded_ = part_case(rec, tab)
+        except RealCodeError as e:
+            fails, recorded_ = [str(e)], False
+        nrec += bool(recorded_)
+        chk.case(("part", rec["n"], rec["w"]), nontrivial=rec["w"] >= 2 and rec["n"] >= 2)
+        chk.traces += 1
+        if fails:
+            chk.violation("angle partition n=%d workers=%d: %s" % (rec["n"], rec["w"], fails[0]),
+                          {"kind": "part", "rec": rec, "failures": fails})
+    # workers=None in this process
+    for n in (5, PART_MAXN):
+        row = part_row_inprocess(n, None)
+        fails, info = judge_part_row(tab, row, usable_cpus(), " in this process")
+        chk.case(("part-none", n))
+        if fails:
+            chk.violation("angle partition n=%d workers=None: %s" % (n, fails[0]),
+                          {"kind": "part", "n": n, "req": None, "failures": fails})
+    chk.notes["partition_pairs_in_specification"] = len(parts)
+    chk.notes["partition_pairs_not_a_partition"] = sum(1 for r in parts if not r["ok"])
+    chk.notes["partition_cases_with_recorded_jobs"] = nrec
+    return tab
+
+
+def judge_children(chk, tab, children, recon_cases):
+    notes = []
+    for t, env_extra, res in children:
+        bad, cnt = judge_child(tab, t, env_extra, res, recon_cases)
+        chk.case(("child", t["affinity"], t["envname"]))
+        chk.traces += cnt["rows"]
+        chk.evaluations += cnt["rows"]
+        for what, obj in bad:
+            chk.violation(what, obj)
+        notes.append({"cpus_in_mask": res.get("mask"), "environment": t["envname"], "sweeps": cnt["rows"],
+                      "sweeps_with_recorded_jobs": cnt["recorded"], "requests_above_usable_cpus": cnt["capped_requests"],
+                      "partition_by_another_pair": cnt["law_differs"], "observations": sorted(set(cnt["obs"]))[:6]})
+    chk.notes["restricted_children"] = notes
+    if children and not any(n["requests_above_usable_cpus"] and n["sweeps_with_recorded_jobs"] for n in notes):
+        raise common.MachineryError("vacuity: no child ran a worker count above its usable cpus with recorded jobs")
+
+
 def run(tier, replay=None):
     _setup()
     if replay:
@@ -745,75 +1230,122 @@ def run(tier, replay=None):
     thorough = tier == "thorough"
 
     # ---- PART
-    parts = _tlc(chk, "ScanGeom part n<=12 w<=16", "ScanGeom_part.cfg", actions=["TakeJob"], timeout=300)
-    nrec = 0
-    for rec in parts:
-        try:
-            fails, nj = part_case(rec)
-        except RealCodeError as e:
-            fails, nj = [str(e)], 0
-        nrec += (nj > 0)
-        chk.case(("part", rec["n"], rec["w"]), nontrivial=rec["w"] >= 2 and rec["n"] >= 2)
-        chk.traces += 1
-        if fails:
-            chk.violation("angle partition n=%d workers=%d: %s" % (rec["n"], rec["w"], fails[0]),
-                          {"kind": "part", "rec": rec, "failures": fails})
-    chk.notes["partition_cases_with_recorded_jobs"] = nrec
+    parts = _tlc(chk, "ScanGeom part n<=17 stride<=16 pool<=16", "ScanGeom_part.cfg", actions=["TakeJob"], timeout=900)
+    tab = run_part(chk, parts)
 
-    # ---- WALK (mode B)
-    walks = _tlc(chk, "ScanGeom walk depth 4 " + ("thorough" if thorough else "quick"),
-                 "ScanGeom_walk_t.cfg" if thorough else "ScanGeom_walk_q.cfg", actions=WALK_ACTIONS)
-    nsim = 4000 if thorough else 800
-    sim = _tlc(chk, "ScanGeom walk simulate depth 8", "ScanGeom_walk_sim.cfg", actions=None,
-               simulate=max(nsim // 16, 1), depth=9, seed_=common.seed())
-    seen = set()
-    allw = []
-    for rec in walks + sim:
-        k = walk_key(rec)
-        if k not in seen:
-            seen.add(k)
-            allw.append(rec)
-    t0 = time.time()
-    for i, rec in enumerate(allw):
-        judge_walk(chk, rec, i)
-        if i < 2:
-            chk.sample({"walk": rec})
-    chk.notes["walks_replayed"] = len(allw)
-    chk.notes["walk_replay_s"] = round(time.time() - t0, 1)
-
-    # ---- RECON (mode A)
+    # ---- RECON (mode A): the specification's cases
     cases = _tlc(chk, "ScanGeom recon " + ("all offsets" if thorough else "7 offsets"),
                  "ScanGeom_recon.cfg" if thorough else "ScanGeom_recon_q.cfg", actions=RECON_ACTIONS)
     cases.sort(key=recon_key)
-    if not thorough:
-        cases = rnd.sample(cases, min(700, len(cases)))
-    nlevel1 = 160 if thorough else 24
-    pick = set(rnd.sample(range(len(cases)), min(nlevel1, len(cases))))
-    levels = [1 if i in pick else 0 for i in range(len(cases))]
-    t0 = time.time()
-    worst = run_recon_cases(chk, cases, levels)
-    chk.sample({"recon_case": cases[0]})
-    chk.notes["fbp_cases"] = len(cases)
-    chk.notes["fbp_cases_with_workers_roi_linearity_consumers"] = sum(levels)
-    chk.notes["fbp_worst_distance_px"] = round(worst, 4)
-    chk.notes["fbp_s"] = round(time.time() - t0, 1)
-    chk.notes["tolerances"] = {"positions": "1e-9*scale+1e-12", "fbp_peak_px": FBP_PX, "fbp_rel": REL}
-    chk.notes["workers_exercised"] = list(range(1, 17))
+    # the worker sweep again in processes with a restricted CONFIGURATION (cpu affinity, batch environment);
+    # they run beside the rest of the check on their 1..3 cpus
+    own = [c for c in cases if c["cfg"]["padmode"] == "own" and c["cfg"]["pq"] != [0, 0]]
+    child_cases = [rnd.choice([c for c in own if c["cfg"]["scan"] == 180 and c["cfg"]["ny"] == 40]),
+                   rnd.choice([c for c in own if c["cfg"]["scan"] == 360 and c["cfg"]["ny"] == 41])]
+    procs = start_children(child_tasks(child_cases, thorough, common.seed()))
+    try:
+        if not thorough:
+            cases = rnd.sample(cases, min(700, len(cases)))
+        nlevel1 = 160 if thorough else 24
+        pick = set(rnd.sample(range(len(cases)), min(nlevel1, len(cases))))
+        levels = [1 if i in pick else 0 for i in range(len(cases))]
+        t0 = time.time()
+        worst, agg = run_recon_cases(chk, cases, levels)
+        chk.sample({"recon_case": cases[0]})
+        chk.notes["fbp_cases"] = len(cases)
+        chk.notes["fbp_cases_with_workers_roi_linearity_consumers_options_float32"] = sum(levels)
+        chk.notes["fbp_worst_distance_px"] = round(worst, 4)
+        chk.notes["fbp_s"] = round(time.time() - t0, 1)
+        chk.notes["fbp_cases_step_not_a_binary_fraction"] = agg["inexact"]
+        chk.notes["fbp_cases_pad_on_the_far_side_of_a_boundary"] = agg["pad_other_side"]
+        chk.notes["fit_sine_wave_cases"] = len(cases)
+        chk.notes["fit_sine_wave_worst_relative_error"] = float("%.3g" % agg["fit_err"])
+        chk.notes["scan_descriptions"] = {"omega + 360 k": agg["variants"][0], "2 degree steps decreasing": agg["variants"][1],
+                                          "offset start": agg["variants"][2]}
+        chk.notes["iradon_option_runs (interpolation/filter/shifts given/output_size given)"] = agg["option_runs"]
+        chk.notes["float32_cases"] = agg["float32"]
+        chk.notes["projection_subset_cases"] = agg["projection_subsets"]
+        chk.notes["observations"] = {
+            "not judged": agg["obs"],
+            "worst peak distance with nearest / cubic interpolation (px)": round(agg["worst_nonlinear_interp_px"], 3),
+            "fit_sample_position_from_recon": {"cases": agg["blob"], "returned None": agg["blob_none"],
+                                               "worst distance from the grain (steps)": round(agg["blob_worst_steps"], 3)}}
+
+        # ---- WALK (mode B)
+        walks = _tlc(chk, "ScanGeom walk depth 4 " + ("thorough" if thorough else "quick"),
+                     "ScanGeom_walk_t.cfg" if thorough else "ScanGeom_walk_q.cfg", actions=WALK_ACTIONS)
+        nsim = 4000 if thorough else 800
+        sim = _tlc(chk, "ScanGeom walk simulate depth 8", "ScanGeom_walk_sim.cfg", actions=None,
+                   simulate=max(nsim // 16, 1), depth=9, seed_=common.seed())
+        seen = set()
+        allw = []
+        for rec in walks + sim:
+            k = walk_key(rec)
+            if k not in seen:
+                seen.add(k)
+                allw.append(rec)
+        t0 = time.time()
+        groups = {}
+        nscalar = ninexact = 0
+        for i, rec in enumerate(allw):
+            chk.case(walk_key(rec), nontrivial=walk_nontrivial(rec))
+            chk.traces += 1
+            groups.setdefault(group_key(rec), []).append(rec)
+            ninexact += not dyadic(rec["cfg"]["ystep"])
+            if i % 3 == 0:
+                judge_walk(chk, rec, i // 3)
+                nscalar += 1
+            if i < 2:
+                chk.sample({"walk": rec})
+        ndistinct = 0
+        for gi, (gk, recs) in enumerate(sorted(groups.items())):
+            judge_group(chk, recs, gi)
+            ndistinct += len(recs) > 1
+        chk.notes["walks_replayed"] = len(allw)
+        chk.notes["walks_with_scalar_arguments"] = nscalar
+        chk.notes["walk_groups_with_array_arguments"] = len(groups)
+        chk.notes["walk_groups_with_distinct_elements"] = ndistinct
+        chk.notes["walks_step_not_a_binary_fraction"] = ninexact
+        chk.notes["walk_replay_s"] = round(time.time() - t0, 1)
+    except BaseException:
+        for p in procs:
+            p[0].kill()
+        raise
+    judge_children(chk, tab, collect_children(procs), child_cases)
+
+    chk.notes["tolerances"] = {"positions": "1e-9*scale+1e-12", "fbp_peak_px": FBP_PX, "fbp_rel": REL,
+                               "fbp_rel_float32": REL32, "fit_rel": FIT_REL}
+    chk.notes["workers_exercised"] = list(range(1, 17)) + ["None"]
 
     chk.rule = ("walks: every behaviour of 4 conversions TLC enumerates from every frame (+ seeded simulated walks of 8), "
+                "each with scalar (every third one) and array arguments (groups that differ in the angle), "
                 "non-trivial = a frame is visited twice; recon: every (position in the scanned disc, y0 offset, ystep, ny, "
                 "scan, pad mode, ymin) case of the specification%s, non-trivial = off-axis point or off-centre y0; "
-                "partition: every (n<=12, workers<=16)" % ("" if thorough else " at 7 offsets, seeded sample of 700"))
+                "partition: every (n<=17, workers<=16) in this process, and requests 1..16 / None in children restricted "
+                "to 1, 2, 3 cpus" % ("" if thorough else " at 7 offsets, seeded sample of 700"))
     chk.exhaustive = bool(thorough)
     chk.assumptions = ["1.5 px bound, linearity, worker and ROI independence are observed on the real FBP at the "
-                       "specification's cases; the specification supplies the predicted pixel and the partition lemma",
-                       "exact instances: omega in right/Pythagorean angles, lengths in half/quarter steps"]
+                       "specification's cases; the specification supplies the predicted pixel, the exact fit and the "
+                       "partition law for every (stride, pool size) pair",
+                       "exact instances: omega in right/Pythagorean angles, lengths in half/quarter steps of "
+                       "1/2, 1, 3, 1/10, 3/7",
+                       "the restricted configurations are emulated with os.sched_setaffinity and environment variables "
+                       "in child processes"]
     if thorough:
         selftest()
     return chk.finish()
 
 
 # --------------------------------------------------------------------------------------------------
+
+def _part_table_now():
+    res = common.run_tlc("ScanGeom", os.path.join(common.SPECS, "ScanGeom_part.cfg"),
+                         workers=int(os.environ.get("C19_TLC_WORKERS", "4")), timeout=900)
+    parts, bad = parse_printed(res)
+    if bad or not parts or res.violated or res.error:
+        raise common.MachineryError("TLC run of the PART machine failed")
+    return PartTable(parts)
+
 
 def do_replay(path):
     with open(path) as f:
@@ -822,11 +1354,25 @@ def do_replay(path):
     kind = case["kind"]
     try:
         if kind == "walk":
-            fails = replay_walk(case["rec"], vector=case.get("vector", False))
+            recs = case["recs"] if "recs" in case else case["rec"]
+            vec = case.get("vector", False)
+            fails = replay_walk(recs if vec else (recs[0] if isinstance(recs, list) else recs), vector=vec,
+                                turns=case.get("turns"))
         elif kind == "recon":
-            fails, _ = recon_case(case["rec"], level=case.get("level", 0))
+            fails, _ = recon_case(case["rec"], level=case.get("level", 0), ordinal=case.get("ordinal"))
         elif kind == "part":
-            fails, _ = part_case(case["rec"])
+            tab = _part_table_now()
+            if "rec" in case:
+                fails, _ = part_case(case["rec"], tab)
+            else:
+                fails, _ = judge_part_row(tab, part_row_inprocess(case["n"], case["req"]), usable_cpus(), " in this process")
+        elif kind == "child":
+            tab = _part_table_now()
+            recs = [case["rec"]] if "rec" in case else []
+            children = collect_children(start_children([(case["task"], case.get("env", {}))]))
+            t, env_extra, res = children[0]
+            bad, _ = judge_child(tab, t, env_extra, res, recs)
+            fails = [w for w, _ in bad]
         else:
             raise common.MachineryError("unknown replay kind %r" % kind)
     except RealCodeError as e:
@@ -844,8 +1390,8 @@ def selftest():
     """the comparisons must reject a perturbed expectation"""
     _setup()
     import copy
-    scr = common.scratch()
-    res = common.run_tlc("ScanGeom", os.path.join(common.SPECS, "ScanGeom_walk_q.cfg"), workers=4, timeout=600)
+    nw = int(os.environ.get("C19_TLC_WORKERS", "8"))
+    res = common.run_tlc("ScanGeom", os.path.join(common.SPECS, "ScanGeom_walk_q.cfg"), workers=nw, timeout=900)
     walks, _ = parse_printed(res)
     if not walks:
         raise common.MachineryError("selftest: no walks")
@@ -864,17 +1410,39 @@ def selftest():
     w["cfg"]["dc"] += 1
     if not replay_walk(w):
         raise common.MachineryError("selftest: perturbed dtyi not rejected")
-    res = common.run_tlc("ScanGeom", os.path.join(common.SPECS, "ScanGeom_part.cfg"), workers=2, timeout=300)
+    # a group with distinct elements: perturbing the expectation of the SECOND element only must be noticed
+    grp = [x for x in walks if group_key(x) == group_key(good)]
+    if len(grp) < 2:
+        raise common.MachineryError("selftest: no walk group")
+    if replay_walk(grp, vector=True, turns=[1, -1] + [0] * (len(grp) - 2)):
+        raise common.MachineryError("selftest: reference walk group does not pass")
+    g2 = copy.deepcopy(grp)
+    n, d = g2[1]["op"][-1]["d"]
+    g2[1]["op"][-1]["d"] = [n * 1000 + d, d * 1000]
+    if not replay_walk(g2, vector=True):
+        raise common.MachineryError("selftest: perturbed element of a walk group not rejected")
+    # partition
+    res = common.run_tlc("ScanGeom", os.path.join(common.SPECS, "ScanGeom_part.cfg"), workers=nw, timeout=900)
     parts, _ = parse_printed(res)
-    p = copy.deepcopy([r for r in parts if r["n"] == 7 and r["w"] == 3][0])
-    if part_case(p)[0]:
+    tab = PartTable(parts)
+    p = copy.deepcopy(tab.rec[(7, 3, 3)])
+    if part_case(p, tab)[0]:
         raise common.MachineryError("selftest: reference partition does not pass")
     p["jobs"][0][1], p["jobs"][1][1] = p["jobs"][1][1], p["jobs"][0][1]
-    if not part_case(p)[0]:
+    if not part_case(p, PartTable([p]))[0]:
         raise common.MachineryError("selftest: perturbed partition not rejected")
-    res = common.run_tlc("ScanGeom", os.path.join(common.SPECS, "ScanGeom_recon_q.cfg"), workers=8, timeout=900)
+    # what a pool capped below the stride would hand over: the specification's record says it is no partition
+    capped = tab.rec[(7, 5, 2)]
+    row = {"n": 7, "req": 5, "pool": 2, "jobs": capped["jobs"], "diff": 0.0, "scale": 1.0}
+    f, _ = judge_part_row(tab, row, 2)
+    if capped["ok"] or capped["ndrop"] != 3 or not f or "not a partition" not in f[0]:
+        raise common.MachineryError("selftest: jobs of a capped pool not rejected")
+    row = {"n": 7, "req": 5, "pool": 5, "jobs": tab.rec[(7, 5, 5)]["jobs"], "diff": 0.5, "scale": 1.0}
+    if not judge_part_row(tab, row, 2)[0]:
+        raise common.MachineryError("selftest: differing reconstruction not rejected")
+    res = common.run_tlc("ScanGeom", os.path.join(common.SPECS, "ScanGeom_recon_q.cfg"), workers=nw, timeout=900)
     cases, _ = parse_printed(res)
-    c0 = [c for c in cases if c["cfg"]["pq"] == [30, 21] and c["cfg"]["offh"] == 7][0]
+    c0 = [c for c in cases if c["cfg"]["pq"] == [30, 21] and c["cfg"]["offh"] == 7 and dyadic(c["cfg"]["ystep"])][0]
     if recon_case(c0)[0]:
         raise common.MachineryError("selftest: reference recon case does not pass")
     c = copy.deepcopy(c0)
@@ -890,4 +1458,18 @@ def selftest():
     c["rec"]["ang"][4]["vhi"] += 1
     if not recon_case(c)[0]:
         raise common.MachineryError("selftest: perturbed voxel window not rejected")
+    c = copy.deepcopy(c0)
+    n, d = c["rec"]["fit"][2]
+    c["rec"]["fit"][2] = [n * 1000 + d, d * 1000]           # y0 + 1/1000
+    f = recon_case(c)[0]
+    if not f or "specification (sx, sy, y0)" not in f[0]:
+        raise common.MachineryError("selftest: perturbed fit not rejected")
+    # a step that is not a binary fraction: the far side of a boundary is accepted, two away is not
+    c1 = [c for c in cases if not dyadic(c["cfg"]["ystep"]) and c["cfg"]["padmode"] == "own" and c["cfg"]["pq"] == [13, -7]][0]
+    if recon_case(c1)[0]:
+        raise common.MachineryError("selftest: reference recon case (ystep 1/10) does not pass")
+    c = copy.deepcopy(c1)
+    c["rec"]["ownpad"] -= 2
+    if not recon_case(c)[0]:
+        raise common.MachineryError("selftest: perturbed pad (ystep 1/10) not rejected")
     return True
